@@ -220,7 +220,7 @@ fn json_lines_case(seq: &[u8], eol: &str) -> Vec<Failure> {
 pub fn run(ctx: &Ctx) -> i32 {
     let col = Collector::new();
     let tables = sut::make_tables(DEF).unwrap();
-    let maxlen = ctx.tier.pick(4, 6) as u32;
+    let maxlen = ctx.tier.pick(4, 7) as u32;
     let k = UNITS.len() as u64;
     let total = seq_count(k, maxlen);
     let (done, complete) = par_for_budget(ctx, total, 16, |idx| {
